@@ -18,10 +18,15 @@ func InitDtailClient() { initDtail(source.Client) }
 // InitDtailServer sets up the process globals the way the server process does.
 func InitDtailServer() { initDtail(source.Server) }
 
-func initDtail(src source.Source) {
+// InitDtailClientStdout is InitDtailClient with the stdout logger (what the client binaries use for their output).
+func InitDtailClientStdout() { initDtailWith(source.Client, "stdout", "error") }
+
+func initDtail(src source.Source) { initDtailWith(src, "none", "error") }
+
+func initDtailWith(src source.Source, logger, level string) {
 	dtailOnce.Do(func() {
 		os.Unsetenv("DTAIL_INTEGRATION_TEST_RUN_MODE")
-		args := config.Args{ConfigFile: "none", Logger: "none", LogLevel: "error", NoColor: true, SSHPort: config.DefaultSSHPort}
+		args := config.Args{ConfigFile: "none", Logger: logger, LogLevel: level, NoColor: true, SSHPort: config.DefaultSSHPort}
 		config.Setup(src, &args, nil)
 		var wg sync.WaitGroup
 		wg.Add(1)
